@@ -39,10 +39,12 @@ LNames(it) ==
 RECURSIVE ItemSeqs(_, _)
 ItemSeqs(n, S) == IF n = 0 THEN {<<>>} ELSE {<<x>> \o s : x \in S, s \in ItemSeqs(n - 1, S)}
 
+ListPatInto(items, restVar) ==
+    [t |-> "list", loc |-> NL, collect |-> TRUE,
+     items |-> [i \in 1 .. Len(items) |-> LItemE(items[i])] \o <<Item(restVar)>>]
 ListPat(items, collect) ==
     IF collect
-    THEN [t |-> "list", loc |-> NL, collect |-> TRUE,
-          items |-> [i \in 1 .. Len(items) |-> LItemE(items[i])] \o <<Item(Rest)>>]
+    THEN ListPatInto(items, Rest)
     ELSE [t |-> "list", loc |-> NL, collect |-> FALSE,
           items |-> [i \in 1 .. Len(items) |-> LItemE(items[i])]]
 
@@ -73,7 +75,7 @@ BindAt(pos, pat, src, names) ==
                              SExpr(ECall(EVar(FN), <<Src>>)), SPrint(Src)>>
 
 \* object pattern items
-OItems == {"a", "b", "ra", "rb_", "us", "comp", "nest", "rest", "spr", "nonvar", "dupa", "miss"}
+OItems == {"a", "b", "ra", "rb_", "us", "comp", "nest", "rest", "resta", "restus", "spr", "nonvar", "dupa", "miss"}
 KA == <<97>>
 KB == <<98>>
 KC == <<99>>
@@ -86,12 +88,14 @@ OItemE(it) ==
       [] it = "comp" -> Pair(EBin("+", EStr(<<>>), EStr(KB)), V(4))     \* ("" + "b"): d
       [] it = "nest" -> Pair(EStr(KC), EPat(<<V(5)>>))           \* "c": [e]
       [] it = "rest" -> PCollect(Rest)
+      [] it = "resta" -> PCollect(V(1))                         \* ..a   (collect into a name of the pattern)
+      [] it = "restus" -> PCollect(EVar(N_us))
       [] it = "spr"  -> PSpread(V(2))
       [] it = "nonvar" -> Short(I(1))
       [] it = "dupa" -> Pair(EStr(KB), V(1))                     \* "b": a   (a second binding of a)
       [] it = "miss" -> Short(EVar(<<122>>))                     \* z: not a property
 ONames(it) ==
-    CASE it \in {"a", "dupa"} -> <<V(1)>> [] it \in {"b", "spr"} -> <<V(2)>> [] it = "ra" -> <<V(3)>>
+    CASE it \in {"a", "dupa", "resta"} -> <<V(1)>> [] it \in {"b", "spr"} -> <<V(2)>> [] it = "ra" -> <<V(3)>>
       [] it = "comp" -> <<V(4)>> [] it = "nest" -> <<V(5)>> [] it = "rest" -> <<Rest>>
       [] it = "miss" -> <<EVar(<<122>>)>> [] OTHER -> <<>>
 ObjPat(items) == EObj([i \in 1 .. Len(items) |-> OItemE(items[i])])
@@ -127,6 +131,36 @@ CallProg(segs, n, collect) ==
       SPrint(I(0)),
       SExpr(ECallOf(EVar(FN), args))>>                                         \* with spreads
 
+\* `for` targets written directly (the pair [key, value] is what is destructured)
+KK2 == EVar(<<107, 107>>)
+ForTargets == [
+  kv      |-> EPat(<<KK2, V(1)>>),
+  krest   |-> EPatRest(<<KK2, Rest>>),
+  rest    |-> EPatRest(<<Rest>>),
+  kvrest  |-> EPatRest(<<KK2, V(1), Rest>>),
+  one     |-> EPat(<<KK2>>),
+  three   |-> EPat(<<KK2, V(1), V(2)>>),
+  name    |-> V(3),
+  us      |-> EVar(N_us),
+  ksub    |-> EPat(<<KK2, EPat(<<V(4), V(5)>>)>>),
+  ksubrest |-> EPat(<<KK2, EPatRest(<<V(4), Rest>>)>>),
+  kobj    |-> EPat(<<KK2, EObj(<<Short(EVar(<<107>>))>>)>>),
+  usus    |-> EPat(<<EVar(N_us), EVar(N_us)>>),
+  dup     |-> EPat(<<KK2, KK2>>),
+  obj     |-> EObj(<<Short(V(1))>>),
+  usrest  |-> EPatRest(<<EVar(N_us), Rest>>)
+]
+ForTargetNames(ft) ==
+    CASE ft \in {"kv"} -> <<KK2, V(1)>> [] ft \in {"krest", "usrest"} -> <<Rest>> [] ft = "rest" -> <<Rest>>
+      [] ft = "kvrest" -> <<KK2, V(1), Rest>> [] ft = "one" -> <<KK2>> [] ft = "three" -> <<KK2>>
+      [] ft = "name" -> <<V(3)>> [] ft = "ksub" -> <<V(4), V(5)>> [] ft = "ksubrest" -> <<V(4), Rest>>
+      [] ft = "kobj" -> <<EVar(<<107>>)>> [] OTHER -> <<>>
+ForIters == [
+  ints   |-> SrcList("ints", 2), nested |-> SrcList("nested", 2), objs |-> SrcList("objs", 2),
+  str    |-> EStr(<<97, 195, 169>>), obj |-> EObj(<<Pair(EStr(KB), I(2)), Pair(EStr(KA), EList(<<I(1), I(9)>>))>>),
+  empty  |-> EList(<<>>)
+]
+
 \* parameter tuples <<family, items, flag-or-source, n, position>>
 C13Params ==
     { <<"lp", its, sk, n, pos>> :
@@ -140,6 +174,9 @@ C13Params ==
     \cup { <<"op", its, sx, 0, pos>> :
         its \in UNION {ItemSeqs(m, OItems \ {"spr", "nonvar", "miss"}) : m \in 1 .. 2}, sx \in {"ab", "abc"},
         pos \in {"for", "param"} }
+    \cup { <<"fort", <<ft>>, it, 0, "-">> : ft \in DOMAIN ForTargets, it \in DOMAIN ForIters }
+    \cup { <<"lpa", its, "ints:n", n, pos>> :          \* [items.., ..a] : the rest is collected into `a`
+             its \in UNION {ItemSeqs(m, {"a", "b", "_", "sub"}) : m \in 0 .. 2}, n \in 0 .. MaxSrc, pos \in Positions }
     \cup { <<"law", <<"collect">>, "-", n, ToString(m)>> : n \in 0 .. MaxSrc + 1, m \in 0 .. 3 }
     \cup { <<"law", <<"objrest">>, sx, 0, "-">> : sx \in {"a", "ab", "abc"} }
     \cup { <<"law", <<"concat">>, "-", n, ToString(m)>> : n \in 0 .. 3, m \in 0 .. 3 }
@@ -158,6 +195,9 @@ C13ProgOf(p) ==
             BindAt(p[5], ListPat(p[2], SplitCollect(p[3])), SrcList(SplitKind(p[3]), p[4]),
                    NamesOfL(p[2], SplitCollect(p[3])))
       [] p[1] = "op" -> BindAt(p[5], ObjPat(p[2]), SrcObj(p[3]), NamesOfO(p[2]))
+      [] p[1] = "fort" -> <<SFor(ForTargets[p[2][1]], ForIters[p[3]], PrintAll(ForTargetNames(p[2][1]))), SPrint(I(0))>>
+      [] p[1] = "lpa" -> BindAt(p[5], ListPatInto(p[2], V(1)), SrcList("ints", p[4]),
+                                Concat([i \in 1 .. Len(p[2]) |-> LNames(p[2][i])]) \o <<V(1)>>)
       [] p[1] = "law" /\ p[2][1] = "collect" ->
             \* [p1..pm, ..rest] := xs ; [p1..pm] + rest == xs
             LET m == IF p[5] = "0" THEN 0 ELSE IF p[5] = "1" THEN 1 ELSE IF p[5] = "2" THEN 2 ELSE 3
